@@ -3,7 +3,7 @@ import engine
 
 OPS = ["row_swap", "col_swap", "col_swap_in_rows", "row_add", "row_add_offset", "row_clear_offset", "xor_bits", "clear_bits",
        "read_bits", "combine", "combine_even_in_place", "apply_p_left", "apply_p_left_trans", "apply_p_right", "apply_p_right_trans", "apply_p_right_trans_tri"]
-PROOFS = ["Properties_C13"]
+PROOFS = ["Properties_C13", "Properties_C13t"]
 
 
 def run(res, tier, seed):
